@@ -110,6 +110,17 @@ def run(ctx, rep):
                     if s["rv"]["r"] == "bin" and s["rv"]["op"].startswith("Add") and 2 in backward_slice(b, s["rv"]["b"])["args"]:
                         uses_arg = True
             rep.check("C07.eof", "%s advances by exactly the caller's amount" % strip_generics(path), uses_arg, loc_of(b))
+            if "Channel" in path:
+                # a position counter: must accumulate (consumed += amt), every store to it is the sum old + amt
+                st_ = [x for bl in b.blocks for x in bl["s"] if x["d"]["p"] and place_fields(x["d"])[-1:] == ["consumed"]]
+                acc = False
+                for x in st_:
+                    for k, o in origins(b, x["rv"]["o"]) if x["rv"]["r"] == "use" else []:
+                        pass
+                    sl = backward_slice(b, x["rv"]["o"]) if x["rv"]["r"] == "use" else {"ops": set(), "fields": set(), "args": set(), "calls": []}
+                    acc = any(o.startswith("Add") for o in sl["ops"]) and "consumed" in sl["fields"] and 2 in sl["args"] and not sl["calls"]
+                rep.check("C07.eof", "decode::FlacChannelReader::consume accumulates: consumed = consumed + amt", len(st_) == 1 and acc, loc_of(b), "",
+                          "the channel reader's position inside the current frame is overwritten instead of advanced: a second partial consume re-delivers samples")
 
     # ---- C07.count ---------------------------------------------------------------------------------------
     iolib.count_rules(ctx, rep, "C07")
@@ -149,3 +160,5 @@ def run(ctx, rep):
         if fn.endswith("fill_from_buf"):
             # channel_len = (len / width) / channels and samples.resize(len / width)
             pass
+    from rules import castlib
+    rep.floor("C07.cast", "narrowing casts inspected", castlib.cast_audit(ctx, rep, "C07", ['decode.rs', 'audio.rs', 'byteorder.rs', 'crc.rs']), 10)
